@@ -7,7 +7,6 @@ use vh_core::{Run, catch, rng};
 use vh_model::doc::OpKind;
 use vh_model::gen_doc::gen_doc;
 use vh_model::gen_ts::gen_type_system;
-use vh_model::world::World;
 use vh_schema::compare::{ErrMode, compare, observe};
 use vh_schema::{Env, dynb};
 
@@ -62,7 +61,7 @@ pub fn main() {
                         let mut o = doc_opts(run);
                         o.kind = if ts.mutation.is_some() && r.chance(1, 5) { OpKind::Mutation } else { OpKind::Query };
                         let gd = gen_doc(&ts, &mut r, &o);
-                        let world = World::new(r.next_u64());
+                        let world = world_for("dynamic", r.next_u64());
                         let case = Case::new(ts.clone(), gd, world, r.bool());
                         one(run, &schema, &case);
                     }
